@@ -90,6 +90,7 @@ def check(ctx, rep):
                 n = arith.norm(t[2][1], {selff("dc"): "dc"})
                 good = src == selff("data") and n == S("dc")
     rep.check(good, "printing-order", MC + "::to_printer", "chunks", "printed cell n = data[n*dc .. (n+1)*dc]", "to_printer does not cut the data into consecutive digit_count-sized chunks")
+    cell_text_rule(ctx, rep)
     # ---------------- verifier roles
     vr = roles.ctor_field_roles(ctx, MV + "::new", MV, {1: "cc", 2: "h", 4: "w"}, lambda c: "coords" if util.is_call(c, "matrix_card::generate_coordinates") else None, engine="wrap") or {}
     vi = roles.inv(vr)
@@ -352,3 +353,142 @@ def check(ctx, rep):
         good = ok and c["self_ty"].k == "array" and c["self_ty"].len == 20 and ops == {strip(ip[0]["term"]), ("param", 5)} and strip(se.ret) == strip(c["term"]) and c["op"] == "eq"
     rep.check(good, "server-check", fn, "result", "result = (computed 20-byte proof == presented proof)", "the result is not the whole-array equality of the computed and the presented proof", body.loc())
     rep.check(True, "server-check", fn, "present", "server-side check analysed", "")
+
+
+# ------------------------------------------------------------------------------------ printed cell text
+
+PRINTER_NEXT = "<matrix_card::MatrixCardPrinter<'_> as std::iter::Iterator>::next"
+EMPTY_STRING = ("std::string::String::with_capacity", "std::string::String::new")
+APPEND = ("<std::string::String as std::ops::AddAssign<&str>>::add_assign", "std::string::String::push_str")
+
+
+def _digit_text(t, item):
+    """t is (a borrow of) ToString::to_string(item): the decimal text of one digit byte"""
+    t = strip(t)
+    for _ in range(4):
+        if util.is_call(t) and (t[1].endswith("::deref") or t[1].endswith("::as_str") or t[1].endswith("::borrow") or t[1].endswith("::as_ref")) and len(t[2]) == 1:
+            t = strip(t[2][0])
+    return util.is_call(t) and t[1].endswith("std::string::ToString>::to_string") and len(t[2]) == 1 and strip(t[2][0]) == strip(item)
+
+
+def _append_of(step, acc, item):
+    """step = the accumulator after exactly one append of the digit text of `item` to `acc`"""
+    step = strip(step)
+    if step[0] != "after" or not util.is_call(step[1]) or step[1][1] not in APPEND or step[2] != 0:
+        return False
+    return strip(step[3]) == strip(acc) and _digit_text(step[1][2][1], item)
+
+
+def _renders(ctx, se, x, cell, depth=0):
+    """x (a String value in se) is the concatenation, in order, of the decimal text of every
+    byte of the slice `cell`: built from an empty String by one append per element in a
+    for-loop over the slice, or by `cell.iter().fold(String::.., |s, b| { s += b.to_string(); s })`"""
+    from rules import algos
+    x = strip(x)
+    cell = strip(cell)
+    if util.is_call(x) and x[1].endswith("::fold") and len(x[2]) == 3:
+        it, init, cl = strip(x[2][0]), strip(x[2][1]), x[2][2]
+        src_ok = util.is_call(it, "core::slice::<impl [T]>::iter") and strip(it[2][0]) == cell
+        init_ok = util.is_call(init) and init[1] in EMPTY_STRING
+        if not (src_ok and init_ok and cl[0] == "agg" and cl[1] == "closure" and not cl[4]):
+            return False
+        cse = ctx.flat.run(cl[2])
+        if cse is None or cfg.back_edges(cse.body):
+            return False
+        calls = [i for i in cse.term_info.values() if i.get("k") == "call" and not i["name"].endswith("::deref")]
+        return len(calls) == 2 and _append_of(cse.ret, ("param", 2), ("param", 3))
+    # loop form: the value is the accumulator phi of a for-loop over the cell
+    if x[0] == "phi" and x[1] == se.fn:
+        fi = algos.for_info(ctx, se)
+        for head, (elem, src, lp) in fi.items():
+            st = algos.loop_state(se, head)
+            for key, (init, step) in st.items():
+                if algos.phi_of(se, head, key) != x:
+                    continue
+                src_t = strip(lp["init"] or ("?",))
+                if util.is_call(src_t, "core::slice::<impl [T]>::iter"):
+                    src_t = strip(src_t[2][0])
+                init_s = strip(init)
+                return src_t == cell and util.is_call(init_s) and init_s[1] in EMPTY_STRING and _append_of(step, x, lp["elem"])
+    return False
+
+
+def cell_text_rule(ctx, rep):
+    """what the user reads: printed cell n is the text of chunk n, one decimal digit per byte in
+    order, nothing dropped (a leading 0 is a digit the user must type).  Decided on
+    MatrixCardPrinter::next (and on any other Iterator method the printer overrides)."""
+    fb = ctx.fb
+    rule, role = "printing-order", "cell-text"
+    se = ctx.wrap.run(PRINTER_NEXT)
+    if se is None:
+        rep.violation(rule, PRINTER_NEXT, role, "function not found")
+        return
+    body = se.body
+    nexts = [i for i in se.term_info.values() if i.get("k") == "call" and i["name"].endswith("Chunks<'a, T> as std::iter::Iterator>::next")]
+    ok_src = len(nexts) == 1 and nexts[0]["locargs"][0][0] == "ref" and strip(nexts[0]["locargs"][0][1])[0] == "field" and strip(strip(nexts[0]["locargs"][0][1])[1]) == ("param", 1)
+    good = False
+    why = "the printer does not take exactly one chunk per call"
+    if ok_src:
+        nx = nexts[0]["term"]
+        cell = ("field", ("downcast", nx, 1), 0)
+        r = strip(se.ret)
+        why = "returned value is %s" % show(r, maxdepth=3)
+        if util.is_call(r) and r[1] == "std::option::Option::<T>::map" and strip(r[2][0]) == strip(nx):
+            # chunks.next().map(render)
+            f = r[2][1]
+            if f[0] == "agg" and f[1] == "closure" and not f[4]:
+                cse = ctx.wrap.run(f[2])
+                good = cse is not None and _renders(ctx, cse, cse.ret, ("param", 2))
+            elif f[0] == "fn" and f[1] in fb.bodies:
+                cse = ctx.wrap.run(f[1])
+                good = cse is not None and _renders(ctx, cse, cse.ret, ("param", 1))
+            why = "chunks.next().map(render), render = append every byte's decimal text" if good else "the mapped function is not the digit-by-digit rendering"
+        else:
+            somes = [(bi, si) for bi, si, s_ in util.blocks_constructing(body, "std::option::Option", "Some")]
+            if len(somes) == 1:
+                v = se.assigns[somes[0]][1]
+                # `let bytes = self.chunks.next()?`: the chunk is the Continue payload of branch(next())
+                br = [i_["term"] for i_ in se.term_info.values() if i_.get("k") == "call" and i_["name"].endswith("Option<T> as std::ops::Try>::branch") and strip(i_["args"][0]) == strip(nx)]
+                tested, some_v = strip(nx), 1
+                if len(br) == 1:
+                    cell = ("field", ("downcast", br[0], 0), 0)
+                    tested, some_v = strip(br[0]), 0
+                rendered = _renders(ctx, se, v[4][0], cell)
+                # every path on which a chunk was obtained returns that Some
+                sw = [bb for bb, i in se.term_info.items() if i.get("k") == "switch" and strip(i["discr"]) == ("discr", tested)]
+                covers = False
+                if len(sw) == 1:
+                    i = se.term_info[sw[0]]
+                    tg = dict(i["targets"])
+                    some_t = tg.get(some_v, i["otherwise"])
+                    tg = {0: tg.get(1 - some_v, i["otherwise"])}
+                    rets = [b for b in cfg.reachable(body, start=some_t) if body.blocks[b]["term"]["k"] == "return"]
+                    past = cfg.reachable(body, start=some_t, cut_blocks=[somes[0][0]])
+                    covers = bool(rets) and not any(rb in past for rb in rets)
+                    none_t = tg.get(0, i["otherwise"])
+                    covers = covers and somes[0][0] not in cfg.reachable(body, start=none_t, cut_blocks=[some_t])
+                good = rendered and covers
+                why = "Some(text) with text = every byte's decimal text appended in order to an empty String; None exactly when the chunks are exhausted" if good else "rendering recognised: %s; Some returned exactly on the chunk path: %s" % (rendered, covers)
+    rep.check(good, rule, PRINTER_NEXT, role, why, "printed cell text is not the chunk's digits one by one: " + why, body.loc())
+    # other Iterator methods overridden by the printer would bypass `next`
+    others = sorted(p_ for p_ in fb.bodies if p_.startswith("<matrix_card::MatrixCardPrinter<'_> as std::iter::Iterator>::") and p_ != PRINTER_NEXT and fb.bodies[p_].kind in ("Fn", "AssocFn"))
+    bad = []
+    for o in others:
+        ose = ctx.wrap.run(o)
+        r = strip(ose.ret) if ose is not None else ("?",)
+        name = o.split("::")[-1]
+        if name == "size_hint":
+            continue
+        # accepted: chunks.<same method>(args).map(<the same rendering>)
+        okm = False
+        if util.is_call(r) and r[1] == "std::option::Option::<T>::map" and util.is_call(strip(r[2][0])) and strip(r[2][0])[1].split("::")[-1] == name and "Chunks" in strip(r[2][0])[1]:
+            f = r[2][1]
+            if f[0] == "agg" and f[1] == "closure" and not f[4]:
+                cse = ctx.wrap.run(f[2])
+                okm = cse is not None and _renders(ctx, cse, cse.ret, ("param", 2))
+            elif f[0] == "fn" and f[1] in fb.bodies:
+                cse = ctx.wrap.run(f[1])
+                okm = cse is not None and _renders(ctx, cse, cse.ret, ("param", 1))
+        if not okm:
+            bad.append(o)
+    rep.check(not bad, rule, "MatrixCardPrinter", "overrides", "no Iterator method of the printer bypasses the rendering of next()", "the printer overrides %s with something that is not chunks.<method>().map(<digit-by-digit rendering>)" % bad)
